@@ -18,7 +18,9 @@ class Recorder(Monitor):
         self.neg = None
 
     def on_eval(self, sim):
-        self.seen.append(len(sim.f.seen))
+        # the analytic values the driver asks for at user-given evaluation points (interpolation-error history) are not grid
+        # evaluations; they are left out of the stub's count
+        self.seen.append(len(sim.f.seen - getattr(self, "not_counted", set())))
         self.results.append(np.array(sim.op.get_result(), dtype=float).copy())
         for objs in sim.containers():
             for o in objs:
@@ -82,6 +84,8 @@ class C13(Check):
         # (global grid families other than the trapezoidal one are not drawn here: the quantifier of this property does not range
         # over grid types, and GlobalHighOrderGrid without boundary points evaluates the integrand at zero-weight points in the
         # surplus computation before they are ever counted - noted in DESIGN.md 9.2 as an observation outside the quantifier)
+        # interpolation-error history arrays are part of the returned tuple when evaluation points are given
+        cfg["evaluation_points"] = r.randint(2, 5) if (strategy == "dimension_wise" and cfg["boundary"] and r.random() < 0.25) else 0
         n = cfg["nnoise"]
         cfg["reference"] = [0.0] * n if r.random() < 0.2 else [r.choice([0.5, -0.3, 2.0, 0.05]) for _ in range(n)]
         tol = r.choice([0.0, 0.05, 0.3, 1.0, 3.0, 50.0])
@@ -148,7 +152,14 @@ class C13(Check):
         sim.build(reference=cfg["reference"])
         sig = {"strategy": st}
         try:
-            res = sim.perform(tol=lim["tol"], max_evaluations=lim["max_evaluations"], min_evaluations=lim["min_evaluations"])
+            kw = {}
+            if cfg.get("evaluation_points"):
+                from simcore.seeds import H
+                kw["evaluation_points"] = [tuple(cfg["a"][d] + (cfg["b"][d] - cfg["a"][d]) * (0.05 + 0.9 * H(sched["rk"], "evp", k, d)) for d in range(cfg["dim"]))
+                                           for k in range(cfg["evaluation_points"])]
+                rec.not_counted = set(tuple(float(x) for x in p) for p in kw["evaluation_points"])
+                ctx.probe("with_evaluation_points")
+            res = sim.perform(tol=lim["tol"], max_evaluations=lim["max_evaluations"], min_evaluations=lim["min_evaluations"], **kw)
         except DS.StopRun:
             raise Excluded("no stop within the evaluation cap")
         ctx.state(sim.structure_key())
@@ -174,6 +185,8 @@ class C13(Check):
         ctx.ev("stopped", len(E), N, [repr(e) for e in E])
         if not (len(E) == len(N) == len(S) == sim.n_eval):
             ctx.violate("history_array_lengths", sig, "error/points/surplus arrays have %d/%d/%d entries for %d evaluations" % (len(E), len(N), len(S), sim.n_eval))
+        if cfg.get("evaluation_points") and not (len(res[8]) == len(res[9]) == sim.n_eval):
+            ctx.violate("history_array_lengths", dict(sig, arrays="interpolation_error"), "interpolation error arrays have %d/%d entries for %d evaluations" % (len(res[8]), len(res[9]), sim.n_eval))
         if sim.n_refine != sim.n_eval - ncalls:
             ctx.violate("refine_after_stop", sig, "%d refinement steps for %d evaluations in %d driver calls" % (sim.n_refine, sim.n_eval, ncalls))
         stops = [i for i, (e, n) in enumerate(zip(E, N)) if i >= start and ((e <= tol and n >= mn) or (mx is not None and n > mx))]
